@@ -71,6 +71,44 @@ theorem not_implemented_response (servers : Registry) (req : Msg) (m : Nat) (w :
     react servers req notImplemented = .sends (specEncode (.failure req.protocol req.callId 0x80010002)) :=
   react_rmcError w hp 0x80010002 (by decide) (by decide)
 
+/-- a request for a method id the addressed server does not define — the id as it stands on the wire, all 32 bits,
+    whatever defined id it may resemble — is answered with exactly one `Core::NotImplemented` response carrying the
+    request's protocol and call id; `handle()` is entered with that very id, no user method runs, and nothing the
+    user's methods would have done can change the answer -/
+theorem unknown_method_not_implemented (tbl : List Server) (srv : Server) (p c mid : Nat) (body : Bytes)
+    (hwf : (Spec.request p c mid body).WF) (hs : findServer p tbl = some srv) (hn : srv.noresponse = false)
+    (hu : findMethod mid srv.methods = none) (ex : Option Exc) (u : User) :
+    ∃ req, decode (specEncode (.request p c mid body)) = .ok req ∧
+      dispatch tbl req ex = some (p, mid, none) ∧
+      react (registryOf tbl) req (generatedHandle srv mid ex u) = .sends (specEncode (.failure p c 0x80010002)) := by
+  obtain ⟨hp, hc, _, _⟩ := hwf
+  refine ⟨ofSpec (.request p c mid body), decode_specEncode _ ⟨hp, hc, ‹_›, ‹_›⟩, ?_, ?_⟩
+  · simp only [dispatch, ofSpec, hs, invoked_unknown srv mid ex hu, (findServer_some hs).2]
+  · rw [gen_unknown_method srv mid ex u hu]
+    have hreg : regLookup p (registryOf tbl) = some false := by rw [regLookup_registryOf, hs]; simp [hn]
+    exact not_implemented_response (registryOf tbl) (ofSpec (.request p c mid body)) mid ⟨hp, hc, rfl⟩ hreg
+
+/-- the unknown ids that *alias* a defined one: every generated id is below 2^15 (generated obligation
+    `method_ids_fit`), so a defined id `k` with any bit from 15 upwards set (`k | 2^b`, `k + 2^b`, `0xFFFF0000 | k`:
+    what a 15/16-bit narrowing or a response-style `& ~0x8000` would map back to `k`) is not in the table; below
+    bit 15 an id is unknown exactly when no entry carries it -/
+theorem alias_ids_unknown (srv : Server) (hfit : srv.methodIdsFit = true) (k : Nat) :
+    (∀ b, 15 ≤ b → findMethod (k ||| 2 ^ b) srv.methods = none ∧ findMethod (k + 2 ^ b) srv.methods = none) ∧
+    findMethod (0xFFFF0000 ||| k) srv.methods = none ∧
+    (∀ mid, 32768 ≤ mid → findMethod mid srv.methods = none) ∧
+    (∀ mid, findMethod mid srv.methods = none ↔ mid ∉ srv.methods.map (·.id)) :=
+  ⟨fun b hb => ⟨findMethod_none_of_ge hfit (or_pow_ge k b hb), findMethod_none_of_ge hfit (add_pow_ge k b hb)⟩,
+   findMethod_none_of_ge hfit (Nat.le_trans (by decide) Nat.left_le_or),
+   fun _ h => findMethod_none_of_ge hfit h, fun _ => findMethod_none_iff⟩
+
+/-- which user code runs: the entry with exactly the requested id, if it is supported and its parameters could be
+    read — and if none runs, the outcome is the same for every behaviour of the user's methods -/
+theorem handler_runs_iff (srv : Server) (mid : Nat) (ex : Option Exc) :
+    (∀ k, invoked srv mid ex = some k ↔
+      k = mid ∧ ex = none ∧ ∃ mt, findMethod mid srv.methods = some mt ∧ mt.supported = true) ∧
+    (invoked srv mid ex = none → ∀ u u', generatedHandle srv mid ex u = generatedHandle srv mid ex u') :=
+  ⟨invoked_some_iff srv mid ex, not_invoked_user_irrelevant srv mid ex⟩
+
 /-- generated dispatch of a known, supported method: reading past the end of the body (or any other failure
     while extracting the parameters) is the handler's exception; otherwise the user's exception, or — for a
     well-typed result — whatever encoding it yields; a wrongly typed / incomplete result is a `RuntimeError` -/
@@ -188,6 +226,13 @@ example : react [(10, false), (14, true)]
     { mode := 0, protocol := 14, method := some 1, callId := 9, error := -1, body := [] } (.returned []) = .silent := by decide
 example : generatedHandle { protocol := 10, noresponse := false, methods := [{ id := 1, supported := true, resp := .single false }] }
     1 (some .other) .stub = .raised .other := by decide
+example : findMethod (5 ||| 2 ^ 15) [{ id := 5, supported := true, resp := .single false }] = none ∧
+    findMethod 5 [{ id := 5, supported := true, resp := .single false }] ≠ none := by decide
+example : dispatch [{ protocol := 10, noresponse := false, methods := [{ id := 5, supported := true, resp := .single false }] }]
+    { mode := 0, protocol := 10, method := some 0x8005, callId := 9, error := -1, body := [] } none = some (10, 0x8005, none) ∧
+  dispatch [{ protocol := 10, noresponse := false, methods := [{ id := 5, supported := true, resp := .single false }] }]
+    { mode := 0, protocol := 10, method := some 5, callId := 9, error := -1, body := [] } none = some (10, 5, some 5) := by decide
+example : (Spec.request 10 9 0x8005 [1, 0, 0, 0]).WF := by decide
 example : incompat .string (.atom (.int 12345)) = some .typeError := by decide
 example : incompat (.list .string) (.atom .opaque) = some .typeError := by decide
 example : incompat .u32 (.atom (.str [49])) = some .other := by decide
